@@ -118,14 +118,25 @@ type modelOpts struct {
 	tail     map[int]byte
 	abortCap int // >0: only the innermost abortCap frames of one unwinding are notified
 	stackCap int // >0: the stack iterator lists at most stackCap frames
+	// Defect readings for instances that outlive their CompiledModule (compiler only; used ONLY to
+	// give those findings a precise signature). lifecycle names the history, which determines WHEN a
+	// module's code is deleted from the engine: "closedcm" all before the call, "hostclose" all when
+	// the first host function is entered, "rtinst" the calling module of an exit leaf.
+	lifecycle string
+	lcStack   bool // the stack iterator stops at the first frame whose module was deleted
+	lcAbort   bool // a frame of a deleted module is aborted only if that module is the entry module
+	//              of the current Call or directly imported by it
 }
 
 type model struct {
-	t      Tree
-	sigs   []sig
-	listen func(i int) bool
-	o      modelOpts
-	ev     []event
+	lvl        []int
+	allDeleted bool
+	deleted    map[string]bool
+	t          Tree
+	sigs       []sig
+	listen     func(i int) bool
+	o          modelOpts
+	ev         []event
 }
 
 type failure struct {
@@ -147,7 +158,18 @@ func (m *model) call(i int, chain []int, unw *[]int, alias int) ([]uint64, *fail
 		if m.o.stackCap > 0 && len(st) > m.o.stackCap {
 			st = st[:m.o.stackCap]
 		}
+		if m.o.lcStack {
+			for k, fr := range st {
+				if m.isDeleted(fr) {
+					st = st[:k]
+					break
+				}
+			}
+		}
 		m.ev = append(m.ev, event{K: 'B', Fn: i, Vals: append([]uint64{}, p...), Stack: append([]int{}, st...)})
+	}
+	if m.o.lifecycle == "hostclose" && m.t.isHost(i) {
+		m.allDeleted = true // the hook runs at the entry of the Go function, after the before-event
 	}
 	closer := i
 	if alias >= 0 {
@@ -174,7 +196,7 @@ func (m *model) call(i int, chain []int, unw *[]int, alias int) ([]uint64, *fail
 			var inner []int
 			r, f := m.call(c, nil, &inner, -1)
 			if f != nil {
-				m.flushAborts(inner)
+				m.flushAborts(inner, c)
 				if m.t[i].Out == 'S' && !strings.HasPrefix(f.kind, "exit") {
 					acc = acc*31 + swallowMark
 					continue
@@ -219,6 +241,9 @@ func (m *model) call(i int, chain []int, unw *[]int, alias int) ([]uint64, *fail
 	case 'P':
 		return fail(&failure{fmt.Sprintf("panic:%d", i)})
 	case 'E':
+		if m.o.lifecycle == "rtinst" {
+			m.deleted[fmt.Sprintf("m%d", m.lvl[i])] = true // closing the calling module closes its code
+		}
 		return fail(&failure{fmt.Sprintf("exit:%d", exitCode(i))})
 	}
 	r := makeResults(i, s, acc)
@@ -226,11 +251,49 @@ func (m *model) call(i int, chain []int, unw *[]int, alias int) ([]uint64, *fail
 	return r, nil
 }
 
-// flushAborts emits the abort events of one unwinding (frames innermost first).
-func (m *model) flushAborts(frames []int) {
+func (m *model) moduleOf(i int) string {
+	if m.t.isHost(i) {
+		return "env"
+	}
+	return fmt.Sprintf("m%d", m.lvl[i])
+}
+
+func (m *model) isDeleted(i int) bool { return m.allDeleted || m.deleted[m.moduleOf(i)] }
+
+// reachableAfterDelete: modules whose frames the compiler's abort walk still resolves after their
+// code was deleted from the engine: the module of the function the current Call entered and the
+// modules it imports functions from directly.
+func (m *model) reachableAfterDelete(entry int) map[string]bool {
+	r := map[string]bool{m.moduleOf(entry): true}
+	l := m.lvl[entry]
+	for c := 1; c < len(m.t); c++ {
+		par := m.t[c].Parent
+		if m.t.isHost(par) || m.lvl[par] != l {
+			continue
+		}
+		switch m.t[c].Kind {
+		case 'm', 'v':
+			r[fmt.Sprintf("m%d", l+1)] = true
+		case 'h', 'w':
+			r["env"] = true
+		}
+	}
+	return r
+}
+
+// flushAborts emits the abort events of one unwinding (frames innermost first). entry = the
+// function the current api.Function.Call entered.
+func (m *model) flushAborts(frames []int, entry int) {
+	var reach map[string]bool
+	if m.o.lcAbort {
+		reach = m.reachableAfterDelete(entry)
+	}
 	for k, i := range frames {
 		if m.o.abortCap > 0 && k >= m.o.abortCap {
 			break
+		}
+		if m.o.lcAbort && m.isDeleted(i) && !reach[m.moduleOf(i)] {
+			continue
 		}
 		if m.listen(i) {
 			m.ev = append(m.ev, event{K: 'X', Fn: i})
@@ -239,11 +302,12 @@ func (m *model) flushAborts(frames []int) {
 }
 
 func runModel(t Tree, sigs []sig, listen func(int) bool, o modelOpts) ([]event, outcome) {
-	m := &model{t: t, sigs: sigs, listen: listen, o: o}
+	m := &model{t: t, sigs: sigs, listen: listen, o: o, lvl: t.levels(), deleted: map[string]bool{}}
+	m.allDeleted = o.lifecycle == "closedcm"
 	var unw []int
 	r, f := m.call(0, nil, &unw, -1)
 	if f != nil {
-		m.flushAborts(unw)
+		m.flushAborts(unw, 0)
 		return m.ev, outcome{Err: f.kind}
 	}
 	out := outcome{Results: []uint64{}}
